@@ -66,14 +66,28 @@ def main():
     job = json.load(sys.stdin)
     rng = random.Random(job.get("seed", 0))
     recs = []
-    for _ in range(job.get("texnames", 0)):
-        recs.append(texnames_record(rng))
-    for i0, n in job.get("name_blocks", []):
-        names = []
-        for i in range(i0, i0 + n):
-            s = int2name(i)
-            names.append([ord(c) - 64 for c in s])
-        recs.append({"kind": "names", "i0": i0, "names": names})
+    tex_first = rng.random() < 0.5
+    if tex_first:
+        for _ in range(job.get("texnames", 0)):
+            recs.append(texnames_record(rng))
+    blocks = list(job.get("name_blocks", []))
+    # a name is a function of its index alone: the order in which a process asks for names is no input.  Blocks are visited
+    # in a shuffled order and, every other block, the indices inside a block too (descending or at random)
+    rng.shuffle(blocks)
+    for bi, (i0, n) in enumerate(blocks):
+        order = list(range(i0, i0 + n))
+        if bi % 2 == 0:
+            if rng.random() < 0.5:
+                order.reverse()
+            else:
+                rng.shuffle(order)
+        got = {}
+        for i in order:
+            got[i] = [ord(c) - 64 for c in int2name(i)]
+        recs.append({"kind": "names", "i0": i0, "names": [got[i] for i in range(i0, i0 + n)]})
+    if not tex_first:
+        for _ in range(job.get("texnames", 0)):
+            recs.append(texnames_record(rng))
     if job.get("hex3"):
         stride, offset = job["hex3"]
         k = 0
